@@ -19,7 +19,7 @@ import os
 
 from . import common
 from .common import listlit
-from .c03 import hexf, flist, parse_f, close, gen_comb
+from .c03 import hexf, flist, parse_f, close, gen_comb, coq_eval_retry
 
 TOL = 1e-7
 H = 6.62607015e-34
@@ -553,7 +553,7 @@ def run(ctx):
         est_cases.append((ds, impl))
         est_terms.append(f"run_est {hexf(ds['gain_min'])} {hexf(ds['gain_flatmax'])} {hexf(ds['nf_min'])} {hexf(ds['nf_max'])}")
 
-    rows = common.coq_eval('C04', 'Prelude Num NumRun Model.Amp Run.C04', terms + est_terms, per_file=ctx.scale(24, 60),
+    rows = coq_eval_retry(ctx, 'C04', 'Prelude Num NumRun Model.Amp Run.C04', terms + est_terms, per_file=ctx.scale(24, 60),
                            prelude='Open Scope float_scope.\n' + '\n'.join(tb.defs))
     for (c, rec), row in zip(meta, rows[:len(terms)]):
         d = diff(rec, row)
